@@ -3,6 +3,7 @@ SPECIFICATION Spec
 CONSTANTS
   Unit = 1
   MaxV = 1000000
+  MaxPos = 1000000
   GUnit = 1
 INVARIANT StackOK
 POSTCONDITION Accepted
